@@ -21,6 +21,7 @@ func init() {
 			"no mutating client call precedes a refusal that is not caused by that call's own error (C20.refusal-is-pure)",
 			"the status edit stores only Status and StatusText of Nodes[i] of the run read by request id, i being set only under Nodes[i].Step.Name == body.Step, the value being the action's constant; that same object is what UpdateStatus receives (C20.edit-footprint)",
 			"the run edited in place is private to the request: the client hands out the Status of the store's FindByRequestID record, and every store implementation fills that record from a parse made for the call, not from the shared status cache (C20.edit-on-private-copy)",
+			"the status the guards test is the live agent's answer whenever the run's process is alive, and that answer is always `running` - also while handlers run or the run winds down after a stop (C08.live-is-running, shared)",
 			"an unknown action performs no client call other than the status read (C20.unknown-action); start parameters pass through unchanged (C11.param-flow shared)",
 		},
 		NotDec: []string{"sequences of actions over recorded runs", "escaping of \\n / \\r in parameters on the way to the child process", "client.UpdateStatus's own live-run check (request-id equality)"},
@@ -151,6 +152,23 @@ func runC20(e *Env) {
 								found = true
 							}
 						}
+						// the status packed into a request object (`req.current = GetStatus(...)`)
+						if !found {
+							if ps, okd := e.DeepPaths(l.X); okd && len(ps) > 0 {
+								all := true
+								for _, dp := range ps {
+									rc := dp.Root
+									if ex, isE := rc.(*ssa.Extract); isE {
+										rc = ex.Tuple
+									}
+									cc, isC := rc.(*ssa.Call)
+									if dp.Dotted() != "Status.Status" || !isC || !clientCall(&cc.Call, "GetStatus") {
+										all = false
+									}
+								}
+								found = all
+							}
+						}
 					}
 				}
 			}
@@ -210,7 +228,7 @@ func runC20(e *Env) {
 			return false
 		}
 		for _, v := range RetVals(rt, 1) {
-			if ir.IsNilConst(ir.Resolve(v)) {
+			if ir.IsNilConst(ir.Resolve(v)) || e.alwaysNil(v, 0) {
 				continue
 			}
 			// exempt: the refusal reports the mutating call's own error
@@ -309,6 +327,7 @@ func runC20(e *Env) {
 	}
 
 	c20PrivateCopy(e)
+	c08LiveIsRunning(e) // the guards read the live status: while the run's process is alive it must answer running (wind-down, handlers included)
 	r.Rule("C20.unknown-action", "DCS", "unknown action: no client call besides the status read", 1)
 	// the default branch: answers "invalid action"
 	n := 0
@@ -494,7 +513,11 @@ func c20PrivateCopy(e *Env) {
 			nStore++
 			for _, rt := range nonNilRets(f) {
 				var vals []ssa.Value
-				if al, ok := ir.Resolve(rt.Results[0]).(*ssa.Alloc); ok {
+				for _, leaf := range phiLeaves(rt.Results[0]) {
+					al, ok := ir.Resolve(leaf).(*ssa.Alloc)
+					if !ok {
+						continue
+					}
 					for _, ref := range *al.Referrers() {
 						if fa, ok := ref.(*ssa.FieldAddr); ok && ir.FieldNameOf(fa.X.Type(), fa.Field) == "Status" {
 							for _, r2 := range *fa.Referrers() {
@@ -556,4 +579,42 @@ func c20PrivateCopy(e *Env) {
 	if nClient == 0 || nStore == 0 || parse == nil {
 		r.Unknown("status edit: the chain handler → client.GetStatusByRequestID → store.FindByRequestID → parse", "-", sprintf("client implementations=%d store implementations=%d parse function found=%v", nClient, nStore, parse != nil))
 	}
+}
+
+// alwaysNil: v is nil, or result #i of a repository helper that hands back nil at that
+// position on every return (`return actionDone()`).
+func (e *Env) alwaysNil(v ssa.Value, d int) bool {
+	v = ir.Resolve(v)
+	if ir.IsNilConst(v) {
+		return true
+	}
+	if d > 3 {
+		return false
+	}
+	idx := 0
+	if ex, ok := v.(*ssa.Extract); ok {
+		v, idx = ex.Tuple, ex.Index
+	}
+	c, ok := v.(*ssa.Call)
+	if !ok {
+		return false
+	}
+	g := c.Call.StaticCallee()
+	if g == nil || !e.P.Funcs[g] || g.Blocks == nil {
+		return false
+	}
+	n := 0
+	for _, b := range g.Blocks {
+		rt, isR := b.Instrs[len(b.Instrs)-1].(*ssa.Return)
+		if !isR || idx >= len(rt.Results) || !e.Facts(g).Reachable(b) {
+			continue
+		}
+		for _, rv := range RetVals(rt, idx) {
+			n++
+			if !e.alwaysNil(rv, d+1) {
+				return false
+			}
+		}
+	}
+	return n > 0
 }
